@@ -72,6 +72,12 @@ class Connection:
         self._rpoller: dict[socket.socket, select.poll] = {}
         self._wpoller: dict[socket.socket, select.poll] = {}
 
+        # A read cancelled mid-message (the peer loop polls read_message() with a timeout)
+        # is resumed by the next call, otherwise the bytes already taken from the socket
+        # would be lost and the stream would be parsed from the middle of a message.
+        self._partial: tuple[bytearray, int] | None = None
+        self._header: memoryview | None = None
+
         self.id: int = self.identifier.get(self.direction, 1)
 
     def success(self) -> int:
@@ -238,10 +244,13 @@ class Connection:
 
         loop = asyncio.get_event_loop()
 
-        # Pre-allocate buffer for the entire read
-        buffer = bytearray(number)
+        # Pre-allocate buffer for the entire read (or resume the one a cancelled call started)
+        if self._partial is not None and len(self._partial[0]) == number:
+            buffer, offset = self._partial
+        else:
+            buffer, offset = bytearray(number), 0
+        self._partial = None
         view = memoryview(buffer)
-        offset = 0
 
         while offset < number:
             try:
@@ -258,6 +267,10 @@ class Connection:
 
                 offset += nbytes
 
+            except asyncio.CancelledError:
+                if offset:
+                    self._partial = (buffer, offset)
+                raise
             except socket.timeout as exc:
                 self.close()
                 log.warning(lazymsg('tcp.timeout name={n} peer={p}', n=self.name(), p=self.peer), self.session())
@@ -425,8 +438,11 @@ class Connection:
 
         Returns: (length, msg_type, header, body, error)
         """
-        # Read BGP header (19 bytes)
-        header = await self._reader_async(Message.HEADER_LEN)
+        # Read BGP header (19 bytes), unless a cancelled call already has it
+        if self._header is not None:
+            header, self._header = self._header, None
+        else:
+            header = await self._reader_async(Message.HEADER_LEN)
 
         if header[:16] != Message.MARKER:
             report = 'The packet received does not contain a BGP marker'
@@ -451,6 +467,10 @@ class Connection:
             return length, msg, header, memoryview(b''), None
 
         # Read body
-        body = await self._reader_async(number)
+        try:
+            body = await self._reader_async(number)
+        except asyncio.CancelledError:
+            self._header = header
+            raise
 
         return length, msg, header, body, None
